@@ -2,7 +2,7 @@
    as projections of [ks_nf_update_ok]; the two ways its hypothesis on the state behind
    PrepareTriParts is met; refutations (with witnesses) of the statements WITHOUT the hypotheses. *)
 From NiflyVerif Require Import Res UtilModel UtilSpec CompactProofs EraseProofs FillProofs SkinModel SkinLib
-  SkinGenProofs SkinPartsProofs SkinOpsProofs SkinSplitProofs SkinUpdateProofs.
+  SkinGenProofs SkinPartsProofs SkinOpsProofs SkinSplitProofs SkinUpdateProofs SkinTriPartsProofs.
 From Coq Require Import ZifyBool ZifyNat ZifyN Sorted Permutation QArith.
 Local Open Scope N_scope.
 
@@ -119,12 +119,13 @@ Proof.
     + apply ks_prepare_triparts_current. rewrite ks_map_rot_vlen. exact Heq.
     + unfold ks_update_accepts. rewrite Hhas, Hcase, Hdis, Hsmall, Hsize. rewrite Heq, N.eqb_refl. reflexivity.
   - rename Hcase into Hsf.
-    destruct (ks_prepare_triparts_regen (map ks_rot (kh_tris sh)) (kk_sp k)) as (s0 & E & Lp & Lm & Lt & Rg & _).
-    + rewrite ks_map_rot_vlen. exact Hne.
-    + apply Forall_forall. intros p Hp. rewrite forallb_forall in Hsf. specialize (Hsf p Hp).
+    destruct (ks_prepare_triparts_regen (map ks_rot (kh_tris sh)) (kk_sp k)) as (s0 & E & Lp & Lm & Etp).
+    { rewrite ks_map_rot_vlen; exact Hne. }
+    { apply Forall_forall. intros p Hp. rewrite forallb_forall in Hsf. specialize (Hsf p Hp).
       apply andb_true_iff in Hsf. destruct Hsf as [H1 H2]. apply N.eqb_eq in H1. apply N.ltb_lt in H2.
-      split; [exact H1|]. change (2 ^ 31) with 2147483648. exact H2.
-    + exists s0. split; [exact E|]. unfold ks_update_accepts.
+      split; [exact H1|]. change (2 ^ 31) with 2147483648. exact H2. }
+    destruct (ks_regen_tp_spec (map ks_rot (kh_tris sh)) (kp_parts s0)) as (Lt & Rg & _). rewrite <- Etp in Lt, Rg.
+    exists s0. split; [exact E|]. unfold ks_update_accepts.
       assert (Hvl : vlen (kp_parts s0) = vlen (kp_parts (kk_sp k))) by (apply ks_vlen_length; exact Lp).
       rewrite Hhas, Hsmall, Hvl, Hsize, Hdis.
       assert (Ht : vlen (kh_tris sh) =? vlen (kp_tp s0) = true).
@@ -265,3 +266,9 @@ Lemma ks_update_domain_example :
   ks_update_domain (fst ks_wit_short) ks_wit_short_aligned = true /\
   ks_update_domain (fst ks_wit_wide) (snd ks_wit_wide) = true.
 Proof. split; vm_compute; reflexivity. Qed.
+
+(* duplicate shape triangles: every copy held by a partition is assigned, to the partition holding it *)
+Lemma ks_regen_duplicates_example :
+  ks_regen_tp [(0, 4, 2); (2, 0, 4); (1, 0, 3); (7, 8, 9)]
+              [kb_set_tt ks_pb0 [(0, 4, 2)]; kb_set_tt ks_pb0 [(4, 2, 0); (1, 0, 3)]] = [0; 1; 1; -1]%Z.
+Proof. vm_compute. reflexivity. Qed.
